@@ -94,6 +94,9 @@ def cases(shard, nshards, seed, tier):
     for i in range(1 if tier == "quick" else 4):
         if mine():
             yield {"family": "batch-vs-single-transformer", "module": "transform_batch", "i": i}
+    for i in range(2 if tier == "quick" else 8):
+        if mine():
+            yield {"family": "batch-vs-single-convert", "module": "convert_batch", "i": i}
     nb = 20 if tier == "quick" else 200
     for i in range(nb):
         if not mine():
@@ -168,6 +171,17 @@ def _batch_case(case, rec):
             first = [f for f in cifs if f.endswith(("4gqj-assembly1.cif", "4WTI_1_T-P.cif", "1DFU_1_M-N.cif"))]
             paths = [os.path.join(core.REPO, f) for f in [rng.choice(first)] + rng.sample([f for f in cifs if f not in first], 3)]
             single = "transform_batch"
+        elif case["module"] == "convert_batch":
+            # format conversion in a row: files that need fitting to PDB limits (multi-character chains) with author
+            # atom / residue names, files that have label names only (8btk_B7), files that fit as they are, PDB files
+            need = ["tests/184D.cif", "tests/4gqj-assembly1.cif"]
+            label_only = ["tests/8btk_B7.cif"]
+            rest = [f for f in _corpus() if f not in need + label_only and not f.endswith(".gz") and os.path.getsize(os.path.join(core.REPO, f)) < 250_000]
+            chosen = [need[case["i"] % 2]] + label_only + rng.sample(rest, 2)
+            if case["i"] % 4 >= 2:
+                chosen = chosen[1:2] + chosen[:1] + chosen[2:]
+            paths = [os.path.join(core.REPO, f) for f in chosen if os.path.exists(os.path.join(core.REPO, f))]
+            single = "convert_batch"
         else:
             files = [f for f in _corpus() if os.path.getsize(os.path.join(core.REPO, f)) < 400_000]
             paths = [os.path.join(core.REPO, f) for f in rng.sample(files, 2)]
